@@ -15,9 +15,9 @@ from harness import runs, runcommon
 from harness.drive import f2b
 
 ID = "C17"
-THEOREM_MODULES = ["JF.Props.C17", "JF.Props.C17Float", "JF.Props.SystemInv", "JF.Props.C17System"]
+THEOREM_MODULES = ["JF.Props.C17", "JF.Props.C17Float", "JF.Props.SystemInv", "JF.Props.C17System", "JF.Props.Output"]
 NEEDS_GEN = True
-COMPONENTS = ["time"]
+COMPONENTS = ["time", "output"]
 ASSUMPTIONS = ["theorems are the exact (rational) reading: t_k = k*interval, sample count = #{k | t_k < T_end}, sampled out-state fully "
                "time-sliced; the float statement 'one rounding of the remainder per step' is C14's and is measured here by the oracle",
                "a tie between a sampling time and the end time is resolved by the scheduler and not judged (property: 'before the end')"]
@@ -74,8 +74,40 @@ def run(ctx):
             ctx.disagree("sampling.clock" if line.startswith("clock") else "end_of_run.time", {"request": line}, m[3], r)
     ctx.sample({"request": req[0], "impl": meta[0][3], "model": rep[0]})
 
+    # ---- what is written: the four observable output handlers, base/vectors.py and the buffered writer against the model JF.Output
+    # (bit for bit on the written files, several writes per handler object) and a Fraction oracle on the implementation's files
+    from harness import outcorr
+    try:
+        outcorr.check(ctx, sessions=ctx.n(250, 3000))
+    except Exception as e:  # noqa
+        ctx.disagree("output.check", {"where": "outcorr.check"}, "evaluated", repr(e))
+    # ... and the files that real runs write (unique file names per job) contain exactly the model observables of the recorded sampled states
+    try:
+        outcorr.check_runs(ctx)
+    except Exception as e:  # noqa
+        ctx.disagree("output.check", {"where": "outcorr.check_runs"}, "evaluated", repr(e))
     # ---- run level
     trs = runcommon.traces(ctx)
+    # the multi-process mediator is a supported way of running: a few soft-sphere runs on 3 and 4 cores under a seeded wait adversary
+    # (out-states computed ahead of time on idle cores) are further histories for the oracle
+    from harness.props import c20 as _c20
+    mpjobs = []
+    for k in range(ctx.n(2, 5)):
+        b = _c20.soft_sphere(rng.randint(3, 6), rng.choice([2.0, 3.5]), rng.choice(["heap_scheduler", "list_scheduler"]),
+                             rng.choice([1.0, 2.0]), rng.choice([0.11, 0.37]))
+        for cores in (3, 4):
+            mpjobs.append({**b, "seed": ctx.seed * 100 + 70 + k, "max_legs": ctx.n(1200, 5000), "per_handler_rng": True, "timeout": 300,
+                           "kind": "generated-mp", "mp": {"cores": cores, "schedule_seed": ctx.seed * 1000 + 31 * k + cores}})
+    try:
+        mptrs = runs.run_jobs(ctx.root, mpjobs, workers=4)
+    except Exception as e:  # noqa
+        mptrs = []
+        ctx.disagree("run.multi-process-histories", {"jobs": len(mpjobs)}, "evaluated", repr(e))
+    for tr in mptrs:
+        if not tr["legs"]:
+            ctx.count("mp-trace-failed:" + str(tr["end"])[:60])
+    ctx.count("mp-histories", sum(1 for tr in mptrs if tr["legs"]))
+    trs = trs + [tr for tr in mptrs if tr["legs"]]
     mreq, mexp, minfo = [], [], []
     for tr in trs:
         if not tr["legs"]:
